@@ -1,5 +1,7 @@
 import Ysshra.Drv.Common
 import Ysshra.Model.Shim
+import Ysshra.Model.KeyId
+import Ysshra.Wire.JsonIO
 open Ysshra Ysshra.IO Ysshra.Shim
 namespace Ysshra.Drv
 
@@ -18,6 +20,14 @@ def parseCertOracle (s : String) : Option (List (String × CertInfo)) :=
       match v.splitOn "," with
       | [ys, lbl, va, vb] => do
         let ys ← boolOf01 ys
+        let label ← if lbl == "-" then some none else if lbl == "00" then some (some []) else (bytesOfHex lbl).map some
+        pure (name, ⟨ys, label, ← va.toNat?, ← vb.toNat?⟩)
+      | [_ysImpl, lbl, va, vb, tokS] => do
+        -- "decodes as a YSSHCA KeyID" is decided by the KeyID decoder of the statement (C05)
+        let tok := ((tokS.replace "\u0001" ";").replace "\u0002" ",").replace "\u0003" "="
+        let ys := match jvalOfField tok with
+          | some t => (match KeyID.unmarshal t with | .ok _ => true | .error _ => false)
+          | none => false
         let label ← if lbl == "-" then some none else if lbl == "00" then some (some []) else (bytesOfHex lbl).map some
         pure (name, ⟨ys, label, ← va.toNat?, ← vb.toNat?⟩)
       | _ => none
@@ -61,7 +71,7 @@ def faultsOf (spec : String) : Faults :=
     | [style, kinds] =>
       let ks := kinds.splitOn "+"
       -- an oversized reply makes the client give up on the connection
-      let v : Fault := if style == "oversize" then .drop else .fail
+      let v : Fault := if style.startsWith "oversize" then .drop else .fail
       fun k =>
         let hit := match k with
           | .list => ks.contains "list"
@@ -71,6 +81,7 @@ def faultsOf (spec : String) : Faults :=
           | .sign => ks.contains "sign"
           | .lock => ks.contains "lock"
           | .unlock => ks.contains "unlock"
+          | .forward => ks.contains "forward"
         if hit then v else .none
     | _ => noFaults
 
@@ -82,6 +93,7 @@ def showOut : Out → String
   | .signed (.ok k) => "G:ok:k" ++ toString k
   | .signed .notFound => "G:notfound"
   | .signed .err => "G:err"
+  | .forwarded b => "F:" ++ hexOrDash b
 
 def parseOp (orc : List (String × CertInfo)) (s : String) : Option (Option Op) :=
   -- `none` inside = sleep (no model step)
@@ -105,6 +117,7 @@ def parseOp (orc : List (String × CertInfo)) (s : String) : Option (Option Op) 
   | "uadd" => (parseIdent orc arg).map fun i => some (.uAdd i)
   | "uremove" => (parseBlob orc arg).map fun b => some (.uRemove b)
   | "uremoveall" => some (some .uRemoveAll)
+  | "forward" => (bytesOfHex arg).map fun b => some (.forward b)
   | "sleep" => some none
   | _ => none
 
@@ -150,8 +163,13 @@ def namesIn (tok : String) : List String :=
 def classOfCert (ctx : StepCtx) (c : Cert) : List String :=
   let held := ctx.before.u.idents.any fun i => i.blob = .cert c
   let keyed := ctx.before.u.idents.any fun i => i.blob.pub = c.key
+  -- no-upstream mode promises that in-memory hardware certificates stay listed and usable
+  let mem : List String := if ctx.before.noUp && hasCert ctx.before c then ["C09"] else []
+  mem ++
   if !validAt c ctx.now then ["C07"]
-  else if ctx.before.noUp && c.ysshca && held then ["C09"]
+  -- no-upstream mode: which of the underlying agent's certificates are shown is C09's subject,
+  -- whether a YSSHCA one is shown or another one is hidden
+  else if ctx.before.noUp && held then ["C09"]
   -- mode off: "nothing is hidden" (C09) and "all listed, none lost" (C10) say the same of it
   else if c.ysshca && held then ["C09", "C10"]
   else if !keyed && !ctx.before.u.idents.isEmpty then ["C07"]
